@@ -364,6 +364,13 @@ static void h_op(void)
     h_out("%s%s", h_status(status), h_exception_seen ? " exc" : "");
     if (!(status == eslOK || status == eslEOF)) dead = 1;
   }
+  else if (!strcmp(op, "inmap")) {
+    /* the handle's input map as inmap_fasta / inmap_embl / inmap_genbank / inmap_daemon built it for this format and alphabet: the table
+     * every read path is driven by (residue / ignored / end-of-line / end-of-data / illegal for each of the 128 ASCII codes) */
+    char hexs[2 * 128 + 1]; int i;
+    for (i = 0; i < 128; i++) sprintf(hexs + 2 * i, "%02x", (unsigned) sqfp->inmap[i]);
+    h_out("ok inmap=%s", hexs);
+  }
   else if (!strcmp(op, "geom")) {
     if (esl_sqio_IsAlignment(sqfp->format)) h_out("ok bpl=0 rpl=0");
     else h_out("ok bpl=%d rpl=%d", sqfp->data.ascii.bpl, sqfp->data.ascii.rpl);
